@@ -21,6 +21,7 @@ THEOREMS = [
     'Pfst.C20.effSetNorm_present_shields', 'Pfst.C20.eff_absent_consults',
     'Pfst.C20.phase_given_ignores_top', 'Pfst.C20.phase_empty_is_defaults', 'Pfst.C20.phase_none_inherits',
     'Pfst.C20.memo_effective_transparent', 'Pfst.C20.memo_raw_not_transparent',
+    'Pfst.C20.trivia_positions', 'Pfst.C20.real_trivia_line_is_trailing_only',
     'Pfst.C20.thread_frame', 'Pfst.C20.thread_local_step', 'Pfst.C20.machine_exec',
     'Pfst.C20.interleave', 'Pfst.C20.interleave_exec', 'Pfst.C20.stepVis_is_schedule',
     'Pfst.C20.real_tables_wf', 'Pfst.C20.real_set_invalid', 'Pfst.C20.real_block_restores_all',
@@ -37,7 +38,13 @@ RULE = ('(a) check_options on random 1-4 key mappings over the probe domain (23 
         'alone in a fresh thread, and with the big-step model; (d) direct evaluation of the property on every run '
         '(state unchanged by a rejected set/enter, block keys restored on normal and exceptional exit, no change by '
         'get/call, own options stable between own steps, registry empty after calls) plus free-running threads with a '
-        '1 microsecond switch interval vs solo results; (g) option-dependent READ accessors (own_src/own_lines with and '
+        '1 microsecond switch interval vs solo results; (i) `trivia`: the full cross product of 26 documented tokens and '
+        'near-misses x positions (alone, 1-tuple, both positions of a 2-tuple, 3-tuples): the real check function vs the '
+        'per-position model over extracted token classes, and set_options/options()/an edit call vs the documented '
+        'per-position grammar written down independently, with a second option in the same call that must stay unset; '
+        '(j) entry points that set options internally (reconcile(): ok and four inputs that make it fail MIDWAY) as '
+        'catalogue calls: get_options() by value before/after, inside caller blocks naming other options, followed by '
+        'option-sensitive edits, in lock-step threads vs solo; (g) option-dependent READ accessors (own_src/own_lines with and '
         'without docstr=, get_docstr, get_line_comment, copy(), get_slice()) on the SAME long-lived node objects of the '
         'thread before/inside/after blocks (left normally and by exception) and around set_options, each read compared '
         'with the same read on a fresh tree in the same thread at the same moment; the same node read from two threads '
@@ -70,7 +77,9 @@ TRUSTED = [
     'memoised reads: the model states which cache keys are transparent (memo_effective_transparent / '
     'memo_raw_not_transparent); the tie to fst.py is behavioural only: every option-dependent read on a long-lived node '
     'must equal the read on a fresh tree (= no memo). Accessors covered: own_src, own_lines, get_docstr, '
-    'get_line_comment, copy, get_slice; reconcile() trivia_* parameters and dump() are not covered',
+    'get_line_comment, copy, get_slice; reconcile() trivia_* parameters and dump() are not covered. reconcile() is the only '
+    'library entry point that sets options internally (grep of options(/set_options(/_OPTIONS in src/fst); it is in the '
+    'catalogue with inputs failing midway',
     'not modelled: values outside the probe domain (the table is extensional on the probe values); validation of '
     'per-call options by edits is taken to be check_options(options) at entry (checked per call: an edit given options '
     'that check_options rejects must raise the same exception and leave its tree unchanged)',
@@ -594,6 +603,94 @@ DOC_DOMAIN = {
 DOC_UNDECIDED = {('pep8space', ('float', '1.0'))}     # `1.0 == 1`: the documentation does not say
 
 
+import re as _re
+_DOC_LEAD = _re.compile(r'(all|block|none)?([+-]\d*)?$')
+_DOC_TRAIL = _re.compile(r'(all|block|none|line)?([+-]\d*)?$')
+
+
+def _doc_triv_pos(t, trailing):
+    """one position of `trivia` as documented: bool | int | 'all'/'block'/'none' (+ 'line' only for TRAILING), each
+    optionally followed by '+'/'-' and digits, or just such a suffix.  None = the documentation does not decide ('')"""
+    if isinstance(t, int):
+        return True
+    if not isinstance(t, str):
+        return False
+    if t == '':
+        return None
+    return bool((_DOC_TRAIL if trailing else _DOC_LEAD).match(t))
+
+
+def doc_trivia_valid(v):
+    if isinstance(v, tuple):
+        if len(v) == 0:
+            return True
+        if len(v) == 1:
+            return _doc_triv_pos(v[0], True)
+        if len(v) == 2:
+            a, b = _doc_triv_pos(v[0], False), _doc_triv_pos(v[1], True)
+            return False if a is False or b is False else None if a is None or b is None else True
+        return False
+    return _doc_triv_pos(v, False)
+
+
+def _trivia_product(ctx):
+    """the full cross product documented tokens x positions of `trivia`: (i) the real check function vs the
+    per-position model (Pfst.Options.checkTrivia over the extracted token classes), (ii) set_options vs the
+    documented grammar written down above, with another option in the same call that must not be set on rejection"""
+    d = R.dom()
+    T = c20_domain.TRIV_TOKENS
+    n = len(T)
+    shapes = [(False, [i]) for i in range(n)] + [(True, [])] + [(True, [i]) for i in range(n)]
+    shapes += [(True, [i, j]) for i in range(n) for j in range(n)]
+    shapes += [(True, [i, j, k]) for i in (0, 5, 8) for j in (0, 8) for k in (0, 8)]
+    cases, impls = [], []
+    other = 'coerce' if 'coerce' in d.global_names else d.global_names[0]
+    for tup, ix in shapes:
+        v = tuple(T[i] for i in ix) if tup else T[ix[0]]
+        try:
+            d.fo.check_options({'trivia': v}, False)
+            acc = True
+        except Exception:
+            acc = False
+        cases.append({'f': 'C20.trivia', 'tuple': tup, 'toks': ix})
+        impls.append(acc)
+        doc = doc_trivia_valid(v)
+        if doc is None:
+            continue
+        ctx.count(['triv', tup, ix], not doc)
+        for api in ('set_options', 'options'):
+            R.reset_options()
+            before = d.FST.get_options()
+            ran = False
+            try:
+                if api == 'set_options':
+                    d.FST.set_options(**{other: False, 'trivia': v})
+                    ok = True
+                else:
+                    with d.FST.options(**{other: False, 'trivia': v}):
+                        ran = True
+                    ok = True
+            except Exception:
+                ok = ran
+            after = d.FST.get_options()
+            if ok != doc:
+                ctx.fail('C20|set|documented-' + ('invalid-accepted' if ok else 'valid-rejected') + '|trivia',
+                         f'{api}({other}=False, trivia={v!r}) is ' + ('accepted' if ok else 'rejected') + ' against the '
+                         'documented per-position grammar (leading: all/block/none, trailing: all/block/none/line)',
+                         {'name': 'trivia', 'value': repr(v), 'api': api})
+            if not doc and (api == 'options' or not ok) and after != before:
+                ctx.fail('C20|set|rejected-but-state-changed', f'{api}({other}=False, trivia={v!r}): options changed '
+                         f'({other} is now {after.get(other)!r})', {'name': 'trivia', 'value': repr(v), 'api': api})
+        if not doc:
+            r = R.run_edit(R.EDIT_NAMES.index('cut_stmt'), {'trivia': v}, None)
+            if 'EXC ValueError: invalid' not in r:
+                ctx.fail('C20|edit|invalid-item-accepted', f'an edit call with trivia={v!r} is not refused up front: {r[:100]!r}',
+                         {'name': 'trivia', 'value': repr(v), 'api': 'edit'})
+    R.reset_options()
+    ctx.compare('_check_opt_trivia on every documented token x position vs Pfst.Options.checkTrivia', cases, impls,
+                nontrivial=lambda c, io_: True)
+
+
 def _doc_sweep(ctx):
     """documented-invalid values and unknown names must be rejected by set_options and leave get_options() unchanged;
     documented-valid ones must be accepted"""
@@ -752,6 +849,16 @@ def _focus_programs():
                 out.append([['catch', [['block', kv, [['call', kv[:1], e], ['raise']]]]], ['call', kv, e]])
     for e in range(len(R.EDITS)):
         out.append([['call', [], e], ['call', [], e]])
+    # entry points that set options internally (reconcile), made to fail midway: alone, inside the caller's own block
+    # naming OTHER options, after a set; each followed by option-sensitive edits whose text the solo run fixes
+    cut, wal, sd = R.EDIT_NAMES.index('cut_stmt'), R.EDIT_NAMES.index('walrus'), R.EDIT_NAMES.index('set_del')
+    follow = [['call', [], cut], ['call', [], wal], ['call', [], sd]]
+    blk = [kv for kv in ([d.name_code.get('elif_'), d.false_code if hasattr(d, 'false_code') else d.enc(False)],
+                         [d.name_code.get('pep8space'), d.enc(1)]) if kv[0] is not None]
+    for e in R.RECONCILE_IDS:
+        out.append(follow + [['call', [], e]] + follow)
+        out.append([['block', blk, [['call', [], e]] + follow]] + follow)
+        out.append([['set', blk[:1]], ['call', [], e]] + follow + [['catch', [['block', blk[1:], [['call', [], e], ['raise']]]]]] + follow)
     # option-dependent READS on the thread's long-lived nodes: before / inside / after blocks (left normally and by
     # exception), around set_options, first read inside or outside, for every value of every option reads depend on
     acc = g.accG
@@ -775,7 +882,9 @@ def _shape_case(prog):
         # a plain call before and after a call with per-call options (third clause, edit level)
         calls = [i for i, s in enumerate(prog) if s[0] == 'call' and not s[1]]
         same = None
-        if len(calls) >= 3 and len(o['edits']) >= 3 and o['edits'][0][0] != R.PERSIST:
+        shaped = (len(prog) >= 4 and prog[0][0] == 'set' and prog[1][0] == 'call' and prog[3][0] == 'call'
+                  and not prog[1][1] and not prog[3][1] and prog[1][2] == prog[3][2] and prog[2][0] == 'call')
+        if shaped and len(calls) >= 3 and len(o['edits']) >= 3 and o['edits'][0][0] != R.PERSIST:
             same = o['edits'][0][1] == o['edits'][2][1]
         return {'anomalies': o['anomalies'], 'same': same, 'n': len(o['trace'])}
     except Exception:
@@ -1065,6 +1174,7 @@ def _direct(ctx, scale):
     q = ctx.quick
     rng = random.Random(ctx.rng.random())
     n_doc = _doc_sweep(ctx)
+    _trivia_product(ctx)
     ctx.notes['doc_domain_checks'] = n_doc
     _shield_sweep(ctx, full=not q or scale > 1)
     _sub_sweep(ctx, full=not q or scale > 1)
@@ -1179,6 +1289,7 @@ def replay(ctx, data):
                 ctx.fail('replay', str(v['bad']), w)
         elif 'name' in w or 'kwargs' in w:
             _doc_sweep(ctx)
+            _trivia_product(ctx)
             _doc_multi(ctx, random.Random(0), 300)
         else:
             f = _free_case((1, 3, 8))
